@@ -179,3 +179,45 @@ PROPS["C12"] = C12Prop(
     "row recorded with its directory. evaluations = scenarios + kill points; non-trivial = a restore was executed "
     "(distinct by outcome x corruption x prior state) or a kill fired",
     quick_count=320, quick_budget=90.0)
+
+
+class C16Prop(EnumProp):
+    def execute(self, scn, seed, plans=None):
+        enum = scn.get("enum")
+        records, info = [], {}
+
+        def hook(i, st, world, op):
+            if not enum or i != enum["step"] or op["op"] != "run":
+                return None
+            work = world.root.parent
+            r = _random.Random(seed ^ 0xC16)
+            before = st.before
+
+            def evaluate(k, sig, inv, snap, sw):
+                probs, fired = oracles.abort_violations(scn, op, before, snap, inv)
+                evaluate.last = (fired, inv)
+                return probs
+
+            recs, total, exh = E.signal_enumeration(world, op, work, enum["budget"], r, evaluate)
+            for rec in recs:
+                rec.update(step=i, op=op["op"])
+            records.extend(recs)
+            info.update(total=total, exhaustive=exh, tried=len(recs), op=op["op"])
+            return None
+
+        run = runner.execute(scn, seed, plans, hook=hook, keep=True)
+        run.enum = records
+        run.enum_info = info
+        return run
+
+
+PROPS["C16"] = C16Prop(
+    "C16", profiles.GEN["C16"], oracles.CHECKS["C16"],
+    "scenario = small project (parallelizable tasks, -j 1..3, children that stay in flight for several steps, "
+    "some ignoring SIGTERM for a while) + one cond run; SIGINT / SIGTERM is delivered at enumerated interpreter "
+    "check points (function entry, return of every C call, exit of every kernel shim, blocking points) between "
+    "registration of the handlers and the end of the command, one signal per execution. Oracle: every process "
+    "spawned and not yet reaped when the signal arrived got SIGTERM through its group; no row for a task that "
+    "had not exited 0; exit status non-zero with the abort message, no other exception. evaluations = scenarios + "
+    "signal points; distinct = distinct (shape, digest, window); non-trivial = the signal was delivered",
+    quick_count=256, quick_budget=100.0)
